@@ -636,7 +636,7 @@ func runExprs(c *core.Ctx) {
 		if selected {
 			c.Nontrivial()
 		}
-		if idx%50021 == 1 {
+		if idx%7919 == 4000 {
 			s, _ := safeString(spec.Build().String)
 			b, _ := safeString(spec.Build().BracketString)
 			c.Sample(map[string]any{"family": "expr", "dot": s, "bracket": b, "discrepancies": len(ds)})
